@@ -39,7 +39,8 @@ type Report struct {
 	Failures   []*harness.Failure `json:"failures"`
 	Hang       *harness.Failure   `json:"hang,omitempty"`
 	WallS      float64            `json:"wall_s"`
-	DetHash    string             `json:"det_hash"` // digest of (signature, steps, violation class) of every evaluation in order
+	DetHash    string             `json:"det_hash"`
+	Digests    [][2]uint64        `json:"digests,omitempty"` // (evaluation index, digest) samples for the fresh-vs-warm comparison // digest of (signature, steps, violation class) of every evaluation in order
 }
 
 func mix(a, b uint64) uint64 {
@@ -64,6 +65,8 @@ func main() {
 	minimise := flag.String("minimise", "", "failure file to minimise")
 	maxFail := flag.Int("maxfail", 8, "stop after this many failures")
 	evalTimeout := flag.Float64("evaltimeout", 30, "wall-clock limit of one evaluation in seconds")
+	startAt := flag.Int("start", 0, "index of the first evaluation")
+	digestEvery := flag.Int("digestevery", 61, "record the digest of every n-th evaluation (index < 4000)")
 	raceLog := flag.String("racelog", "", "race lane: prefix given to GORACE=log_path (reports are attributed to the evaluation that produced them)")
 	flag.Parse()
 
@@ -123,7 +126,7 @@ func main() {
 		detDump, _ = os.Create(p)
 		defer detDump.Close()
 	}
-	for i := 0; i < *evals; i++ {
+	for i := *startAt; i < *startAt+*evals; i++ {
 		if *secs > 0 && time.Since(start).Seconds() > *secs {
 			break
 		}
@@ -156,6 +159,9 @@ func main() {
 		cls := ""
 		if o.V != nil {
 			cls = o.V.Oracle + "/" + o.V.Class
+		}
+		if o.Digest != 0 && i < 4000 && (i%*digestEvery == 0 || *evals == 1) {
+			rep.Digests = append(rep.Digests, [2]uint64{uint64(i), o.Digest})
 		}
 		if detDump != nil {
 			fmt.Fprintf(detDump, "%d sig=%x steps=%d runs=%d cls=%s\n", i, o.Sig, o.Steps, o.Runs, cls)
